@@ -40,6 +40,14 @@ class BiasGeluFusion(pattern.RewriteRuleClassBase):
 
         if not _ir_utils.has_rank(bias, 1):
             return check_result.fail("bias is not of shape 1D tensor", bias)
+        # BiasGelu does not broadcast: bias.shape[0] must equal input.shape[-1]
+        if input.shape is None or input.shape.rank() == 0:
+            return check_result.fail("input shape is unknown or scalar", input)
+        bias_dim, last_dim = bias.shape[0], input.shape[-1]
+        if not isinstance(bias_dim, int) or bias_dim != last_dim:
+            return check_result.fail(
+                "bias length does not match the last dimension of input", bias
+            )
 
         return check_result
 
